@@ -17,25 +17,25 @@ From NTRIPGen Require Import GenConsts.
    in [fin] reader, framer and fan-out have halted, every channel is empty, and every non-nil
    consumer has recorded exactly the sequential output [seqrun] of the framer on the input. *)
 Theorem C09_every_schedule :
-  forall (B M FS : Type) (fstep : FS -> B -> FS * list M) (fflush : FS -> list M) (k : nat) (live : nat -> bool)
+  forall (B M FS : Type) (fstep : FS -> B -> FS * list M) (fflush : FS -> list M) (k : nat) (live sync : nat -> bool)
          cap0 cap1 caps (bs : list B) (s0 : FS),
   (1 <= cap0)%nat -> (1 <= cap1)%nat -> length caps = k -> Forall (fun c => (1 <= c)%nat) caps ->
   exists n, forall m c,
-    steps _ (nstep _ _ _ (Pipe.prog B M FS fstep fflush k live) Pipe.sender Pipe.receiver (SkDone B M FS)) m
+    steps _ (nstep _ _ _ (Pipe.prog B M FS fstep fflush k live sync) Pipe.sender Pipe.receiver (SkDone B M FS)) m
           (Pipe.init B M FS k cap0 cap1 caps bs s0) c ->
     (m <= n)%nat /\
-    steps _ (nstep _ _ _ (Pipe.prog B M FS fstep fflush k live) Pipe.sender Pipe.receiver (SkDone B M FS)) (n - m) c
+    steps _ (nstep _ _ _ (Pipe.prog B M FS fstep fflush k live sync) Pipe.sender Pipe.receiver (SkDone B M FS)) (n - m) c
           (fin B M FS fstep fflush k live cap0 cap1 caps bs s0) /\
-    (final_config _ _ _ (Pipe.prog B M FS fstep fflush k live) Pipe.sender Pipe.receiver (SkDone B M FS) c ->
+    (final_config _ _ _ (Pipe.prog B M FS fstep fflush k live sync) Pipe.sender Pipe.receiver (SkDone B M FS) c ->
      c = fin B M FS fstep fflush k live cap0 cap1 caps bs s0).
 Proof. exact pipeline_every_schedule. Qed.
 Print Assumptions C09_every_schedule.
 
 Theorem C09_final_configuration :
-  forall (B M FS : Type) (fstep : FS -> B -> FS * list M) (fflush : FS -> list M) (k : nat) (live : nat -> bool)
+  forall (B M FS : Type) (fstep : FS -> B -> FS * list M) (fflush : FS -> list M) (k : nat) (live sync : nat -> bool)
          cap0 cap1 caps (bs : list B) (s0 : FS),
   let f := fin B M FS fstep fflush k live cap0 cap1 caps bs s0 in
-  halted B M FS fstep fflush k live f 0 /\ halted B M FS fstep fflush k live f 1 /\ halted B M FS fstep fflush k live f 2 /\
+  halted B M FS fstep fflush k live sync f 0 /\ halted B M FS fstep fflush k live sync f 1 /\ halted B M FS fstep fflush k live sync f 2 /\
   (forall i, (i < k)%nat -> sink_out B M FS f i = if live i then seqrun B M FS fstep fflush s0 bs else []) /\
   (forall ch, (ch < 2 + k)%nat -> length caps = k -> buf (nth ch (chans f) (dchan _)) = []).
 Proof. exact fin_shape. Qed.
@@ -44,15 +44,15 @@ Print Assumptions C09_final_configuration.
 (* Instance: the framer is the model's stream handler (as a machine that is given the bytes one
    at a time and delivers what handle_stream delivers); its sequential output on the input is
    exactly handle_stream's message list, whose content C01/C02/C03 describe. *)
-Theorem C09_frames : forall t0 (input : list N) (k : nat) (live : nat -> bool) cap0 cap1 caps,
+Theorem C09_frames : forall t0 (input : list N) (k : nat) (live sync : nat -> bool) cap0 cap1 caps,
   (1 <= cap0)%nat -> (1 <= cap1)%nat -> length caps = k -> Forall (fun c => (1 <= c)%nat) caps ->
   exists ms h', handle_stream (new_handler t0) input = Ok (ms, h') /\
   exists n, forall m c,
-    steps _ (nstep _ _ _ (Pipe.prog N msg (list N) (fun acc b => (acc ++ [b], [])) (frame_flush t0) k live)
+    steps _ (nstep _ _ _ (Pipe.prog N msg (list N) (fun acc b => (acc ++ [b], [])) (frame_flush t0) k live sync)
                    Pipe.sender Pipe.receiver (SkDone _ _ _)) m
           (Pipe.init N msg (list N) k cap0 cap1 caps input []) c ->
     (m <= n)%nat /\
-    (final_config _ _ _ (Pipe.prog N msg (list N) (fun acc b => (acc ++ [b], [])) (frame_flush t0) k live)
+    (final_config _ _ _ (Pipe.prog N msg (list N) (fun acc b => (acc ++ [b], [])) (frame_flush t0) k live sync)
                   Pipe.sender Pipe.receiver (SkDone _ _ _) c ->
      forall i, (i < k)%nat -> sink_out N msg (list N) c i = if live i then ms else []).
 Proof. exact pipeline_frames. Qed.
@@ -67,10 +67,10 @@ Proof. reflexivity. Qed.
 Print Assumptions C09_source_shape.
 
 Example C09_example :
-  exists c, run _ _ _ (Pipe.prog nat nat nat (fun s b => (s + b, if Nat.even b then [s + b] else []))%nat (fun s => [s]) 2 (fun i => Nat.eqb i 1))
+  exists c, run _ _ _ (Pipe.prog nat nat nat (fun s b => (s + b, if Nat.even b then [s + b] else []))%nat (fun s => [s]) 2 (fun i => Nat.eqb i 1) (fun _ => true))
                 Pipe.sender Pipe.receiver (SkDone _ _ _)
                 (Pipe.init nat nat nat 2 1 1 [1; 1]%nat [3; 4]%nat 0%nat)
-                [0; 1; 0; 1; 1; 2; 2; 4; 4; 0; 1; 1; 2; 2; 4; 4; 1; 2]%nat = Some c /\
+                [0; 1; 0; 0; 1; 1; 2; 2; 4; 4; 2; 1; 0; 0; 1; 1; 2; 2; 4; 4; 2; 1; 1; 2]%nat = Some c /\
             c = fin nat nat nat (fun s b => (s + b, if Nat.even b then [s + b] else []))%nat (fun s => [s]) 2 (fun i => Nat.eqb i 1)
                     1 1 [1; 1]%nat [3; 4]%nat 0%nat /\
             sink_out nat nat nat c 1 = [7; 7]%nat /\ sink_out nat nat nat c 0 = [].
